@@ -105,15 +105,22 @@ def check_program(prog, K, max_paths):
         dag, txt = fcorpus.generate(prog)
     except Exception:  # noqa
         return st, None, 0       # generation problems are C03's business
+    def unsupported(e, where):
+        # a module that gfortran itself rejects is C03's business ("the module compiles"), not a limit of fsym
+        from vf import fdriver
+        g = fdriver.run_gfortran(txt, None, syntax_only=True)
+        if g["compile_rc"] != 0:
+            return st, [], 0
+        raise common.HarnessError("fsym %s %s: %s" % (where, prog.get("name"), e))
     try:
         fsym.Module(txt)
     except fsym.Unsupported as e:
-        raise common.HarnessError("fsym cannot read the module emitted for %s: %s" % (prog.get("name"), e))
+        return unsupported(e, "cannot read the module emitted for")
     ex = Explorer(timeout_ms=3000, max_paths=max_paths, max_decisions=300, wall_s=40)
     try:
         res = ex.explore(harness(prog, txt, K))
     except fsym.Unsupported as e:
-        raise common.HarnessError("fsym: unsupported construct while executing %s: %s" % (prog.get("name"), e))
+        return unsupported(e, "unsupported construct while executing")
     st.add(ex.stats)
     cands = [r for _, r in res if r is not None]
     return st, cands, ex.stats.paths
@@ -187,7 +194,18 @@ def asan_sweep_one(item):
         for n in pg.var_roles(prog):
             if n.startswith("<p>") and n not in vals:
                 vals[n] = 1.0
-        g = asan_run(prog, txt, vals, K)
+        try:
+            g = asan_run(prog, txt, vals, K)
+        except fsym.Unsupported as e:
+            g = {"compile_rc": 1, "compile_err": "fsym: %s" % e}
+        if g.get("compile_rc"):
+            # "the module compiles" is C03's clause: a module gfortran rejects is skipped here; if the module is fine and
+            # only my driver does not compile, that is a harness error
+            gm = fdriver.run_gfortran(txt, None, syntax_only=True)
+            if gm["compile_rc"] != 0:
+                out["module_rejected_by_gfortran"] = out.get("module_rejected_by_gfortran", 0) + 1
+                return out
+            raise common.HarnessError("the generated driver for %s does not compile: %s" % (prog.get("name"), g["compile_err"][-400:]))
         out["runs"] += 1
         v = sanitizer_verdict(g)
         if v:
